@@ -14,12 +14,17 @@
 //!   crashdeliver <id> <k>     delivery killed just before its k-th commit -> persisted state line
 //!   restart <maxEpochLen> <scan order>                               -> state line after start-up
 //!   burst <ids>               (repeated crashes) final answer only   -> td=<n>
+//!   crashsome <id> <observed> (repeated crashes) delivery on a RESTARTED node killed at some commit: the persisted state between two commits of that delivery -> persisted state line
 //!   (lean/CkbVerif/Driver/C08.lean adds:)
 //!   burstcrash <ids> <i> <v>  family `fork`: i blocks handed over back to back, v verified, process dead -> persisted state line
 //!   requeued <mel> <order>    the blocks the start-up scan re-submitted, as OBSERVED (ext / deleted / pooled) -> ids
 //!   consts                    max_epoch_length / EXPIRED_EPOCH / BLOCK_DOWNLOAD_WINDOW of the real code -> mel=.. expired=.. bdw=..
 //!   longchain <ids>           family `edge`: the prepared chain                -> ok
 //!   crash2 <mel> <order> <observed state, | for spaces>  second-level crash during start-up re-verification -> state line
+//!
+//!   win <close> <far>         the proposal window (first line of a case)               -> ok
+//!   prop <id> <own> <uncles>  names of the ids in the block's own proposals zone / in its uncles' zones -> ok
+//!   pview <close> <far>       `Snapshot::proposals()` of the restarted node (after `restart` and after every later `deliver`) -> gap=<names> set=<names>
 //!
 //! Families (generate): random trees and `deep` (serialised deliveries, crash at commit indexes, restart, first
 //! only the never-stored blocks, then everything), `fork` (burst delivery of competing branches, crash inside
@@ -197,8 +202,41 @@ struct Blk {
     epoch: u64,
     work: u128,
     kind: Kind,
-    /// the transaction this block proposes (committed by its grandchild)
+    /// the transaction this block proposes — itself or only through an embedded uncle — (committed by its grandchild)
     tx: Option<TransactionView>,
+    /// `union_proposal_ids` under small numeric names: the ids in the block's OWN proposals zone …
+    own_props: Vec<(u64, packed::ProposalShortId)>,
+    /// … and the ids in the proposals zones of its embedded UNCLES (flattened, in uncle order)
+    uncle_props: Vec<(u64, packed::ProposalShortId)>,
+}
+
+impl Blk {
+    /// names of `union_proposal_ids`, sorted, without duplicates
+    fn union_names(&self) -> Vec<u64> {
+        let mut v: Vec<u64> = self.own_props.iter().chain(self.uncle_props.iter()).map(|(n, _)| *n).collect();
+        v.sort();
+        v.dedup();
+        v
+    }
+    /// names that reach the proposal table ONLY through an uncle of this block
+    fn uncle_only_names(&self) -> Vec<u64> {
+        let mut v: Vec<u64> = self.uncle_props.iter().map(|(n, _)| *n).filter(|n| !self.own_props.iter().any(|(m, _)| m == n)).collect();
+        v.sort();
+        v.dedup();
+        v
+    }
+}
+
+/// name of an id that only an uncle of block `id` proposes (k = 0, 1)
+fn extra_name(id: usize, k: u64) -> u64 {
+    100_000 + 2 * id as u64 + k
+}
+
+/// An uncle for a child of `sibling`: `sibling`'s header with another nonce and its own proposals zone
+/// (`UnclesVerifier` looks at the target, the epoch, the number, the parent being on the main chain, double
+/// inclusion, the proposals zone and the PoW of an uncle — nothing else).
+fn make_uncle(sibling: &BlockView, salt: u64, proposals: Vec<packed::ProposalShortId>) -> ckb_types::core::UncleBlockView {
+    sibling.as_advanced_builder().set_uncles(vec![]).set_proposals(proposals).nonce(salt as u128).build().as_uncle()
 }
 
 fn u256_u128(x: &U256) -> u128 {
@@ -207,7 +245,7 @@ fn u256_u128(x: &U256) -> u128 {
 
 fn genesis_blk(consensus: &ckb_chain_spec::consensus::Consensus) -> Blk {
     let g = consensus.genesis_block().clone();
-    Blk { id: 0, parent: 0, hash: g.hash(), num: 0, epoch: g.epoch().number(), work: u256_u128(&g.header().difficulty()), kind: Kind::Valid, block: Arc::new(g), tx: None }
+    Blk { id: 0, parent: 0, hash: g.hash(), num: 0, epoch: g.epoch().number(), work: u256_u128(&g.header().difficulty()), kind: Kind::Valid, block: Arc::new(g), tx: None, own_props: vec![], uncle_props: vec![] }
 }
 
 /// see c01.rs: a block failing the merkle-root check, registered in the builder so that children can be built
@@ -224,15 +262,46 @@ fn build_nc_invalid(b: &mut ChainBuilder, parent: &Byte32, spec: BlockSpec) -> B
 
 /// Deterministic in (id, parent chain): the block at height h proposes a transaction spending genesis
 /// cell h-1 (salted by its id) and commits the one proposed by its grandparent, so that forks differ in
-/// their live-cell sets.
+/// their live-cell sets. UNCLES (id mod 4, when the block is in its parent's epoch and has a grandparent;
+/// the uncles are siblings of the parent): 1 = the block proposes NOTHING itself, one embedded uncle
+/// proposes the block's transaction (its only source: the grandchild's commit rests on the uncle);
+/// 3 = the block proposes its transaction, a first uncle proposes an extra id, a second uncle proposes
+/// another extra id and the block's transaction again (the extra ids are never proposed on a main chain
+/// by a block itself and never committed); 0, 2 = no uncle.
 fn build_blk(b: &mut ChainBuilder, id: usize, parent: &Blk, grand: Option<&Blk>, kind: Kind) -> Blk {
     let fdl = b.consensus.finalization_delay_length();
     let cells = genesis_cells(&b.consensus);
     let h = parent.num + 1;
-    let tx = if ((h - 1) as usize) < cells.len() { Some(spend_tx(&cells[(h - 1) as usize..h as usize], 1, 1000, id as u64)) } else { None };
+    let has_cell = ((h - 1) as usize) < cells.len();
+    let tx = if has_cell { Some(spend_tx(&cells[(h - 1) as usize..h as usize], 1, 1000, id as u64)) } else { None };
     let mut spec = BlockSpec { salt: id as u64, ..Default::default() };
+    let pe = parent.block.epoch();
+    let uncle_ok = kind != Kind::Nc && parent.id != 0 && grand.is_some() && pe.index() + 1 < pe.length() && tx.is_some();
+    let mut own_props = vec![];
+    let mut uncle_props = vec![];
     if let Some(t) = &tx {
-        spec.proposals = vec![t.proposal_short_id()];
+        let pid = t.proposal_short_id();
+        let extra = |k: u64| spend_tx(&cells[(h - 1) as usize..h as usize], 1, 2000 + k, 9_000_000 + 2 * id as u64 + k).proposal_short_id();
+        match if uncle_ok { id % 4 } else { 0 } {
+            1 => {
+                spec.uncles = vec![make_uncle(&parent.block, 7_000_000 + 4 * id as u64, vec![pid.clone()])];
+                uncle_props.push((id as u64, pid));
+            }
+            3 => {
+                let (x0, x1) = (extra(0), extra(1));
+                spec.proposals = vec![pid.clone()];
+                spec.uncles = vec![
+                    make_uncle(&parent.block, 7_000_000 + 4 * id as u64 + 1, vec![x0.clone()]),
+                    make_uncle(&parent.block, 7_000_000 + 4 * id as u64 + 2, vec![x1.clone(), pid.clone()]),
+                ];
+                own_props.push((id as u64, pid.clone()));
+                uncle_props.extend([(extra_name(id, 0), x0), (extra_name(id, 1), x1), (id as u64, pid)]);
+            }
+            _ => {
+                spec.proposals = vec![pid.clone()];
+                own_props.push((id as u64, pid));
+            }
+        }
     }
     if parent.id != 0 {
         if let Some(t) = grand.and_then(|g| g.tx.clone()) {
@@ -245,7 +314,16 @@ fn build_blk(b: &mut ChainBuilder, id: usize, parent: &Blk, grand: Option<&Blk>,
         spec.tweak = tweak_for(kind, id, h, fdl);
         b.build(&parent.hash, &spec)
     };
-    Blk { id, parent: parent.id, hash: block.hash(), num: block.number(), epoch: block.epoch().number(), work: u256_u128(&block.header().difficulty()), kind, block: Arc::new(block), tx }
+    Blk { id, parent: parent.id, hash: block.hash(), num: block.number(), epoch: block.epoch().number(), work: u256_u128(&block.header().difficulty()), kind, block: Arc::new(block), tx, own_props, uncle_props }
+}
+
+/// `prop <id> <own ids|-> <uncles' ids|->`: the proposals zone of the block and of its uncles (names)
+fn prop_line(b: &Blk) -> Option<String> {
+    if b.own_props.is_empty() && b.uncle_props.is_empty() {
+        return None;
+    }
+    let show = |v: &[(u64, packed::ProposalShortId)]| if v.is_empty() { "-".to_string() } else { v.iter().map(|(n, _)| n.to_string()).collect::<Vec<_>>().join(",") };
+    Some(format!("prop {} {} {}", b.id, show(&b.own_props), show(&b.uncle_props)))
 }
 
 fn blk_line(b: &Blk) -> String {
@@ -294,7 +372,7 @@ fn read_blocks(path: &Path, consensus: &ckb_chain_spec::consensus::Consensus) ->
         let block = packed::Block::from_compatible_slice(&buf[p..p + len]).expect("block bytes").into_view_without_reset_header();
         p += len;
         assert_eq!(block.hash(), hash, "child: block {id} hash differs from the parent's");
-        v.push(Blk { id, parent: 0, hash, num: block.number(), epoch: block.epoch().number(), work: 0, kind: Kind::Valid, block: Arc::new(block), tx: None });
+        v.push(Blk { id, parent: 0, hash, num: block.number(), epoch: block.epoch().number(), work: 0, kind: Kind::Valid, block: Arc::new(block), tx: None, own_props: vec![], uncle_props: vec![] });
     }
     v
 }
@@ -702,6 +780,9 @@ fn child_main(opts: &Opts) -> ! {
                 std::process::exit(3);
             }
         }
+        if fenced {
+            logln(&mut log, &format!("restarted {}", fmt_line(&[], &r.view())));
+        }
         logln(&mut log, &format!("start {}", ckb_db::verif_crash::count()));
         for id in ids {
             assert!(id < blks.len(), "child: unknown id {id}");
@@ -719,6 +800,7 @@ fn child_main(opts: &Opts) -> ! {
                 }
             }
         }
+        logln(&mut log, &format!("final {}", final_line(&node)));
         logln(&mut log, &format!("end {}", ckb_db::verif_crash::count()));
     }
     node.stop();
@@ -800,6 +882,7 @@ fn child2_main(opts: &Opts) -> ! {
             }
         }
     }
+    logln(&mut log, &format!("final {}", final_line(&node)));
     node.stop();
     logln(&mut log, &format!("end {}", ckb_db::verif_crash::count()));
     std::process::exit(0)
@@ -976,12 +1059,24 @@ struct ChildLog {
     serial_dones: usize,
     /// commits of extra tip deliveries so far (see `Runner::poke`)
     pokes: u64,
+    /// `final_line` of the node when the child had delivered everything
+    final_line: Option<String>,
+    /// fenced child (a restart): the state line after the start-up phase
+    restarted: Option<String>,
 }
 
 fn parse_log(path: &Path) -> ChildLog {
     let mut l = ChildLog::default();
     let txt = std::fs::read_to_string(path).unwrap_or_default();
     for line in txt.lines() {
+        if let Some(f) = line.strip_prefix("final ") {
+            l.final_line = Some(f.to_string());
+            continue;
+        }
+        if let Some(f) = line.strip_prefix("restarted ") {
+            l.restarted = Some(f.to_string());
+            continue;
+        }
         let mut it = line.splitn(5, ' ');
         match it.next() {
             Some("start") => l.start = it.next().and_then(|x| x.parse().ok()),
@@ -1567,6 +1662,8 @@ struct Redo<'a> {
     remaining: Option<(usize, (u128, Option<usize>))>,
     /// "diverged": (td, unique head) after all of `post`
     expect: Option<(u128, Option<usize>)>,
+    /// `final_line` of the crash-free run (when `post` re-delivers the whole history)
+    final_ref: Option<&'a str>,
 }
 
 fn check_converged(out: &mut Out, class: &str, when: &str, last: (Option<usize>, u128), want: (u128, Option<usize>), what: &str) {
@@ -1581,7 +1678,7 @@ fn check_converged(out: &mut Out, class: &str, when: &str, last: (Option<usize>,
 
 /// Steps (3)-(5): restart, fence, `restart` op, `deliver <tip>` op, then the `post` deliveries.
 /// Returns the final (tip, td).
-fn restart_and_redeliver(out: &mut Out, h: &Hist, node_dir: &Path, crashed: &Crashed, redo: &Redo, what: &str) -> Option<(Option<usize>, u128)> {
+fn restart_and_redeliver(out: &mut Out, h: &Hist, builder: &mut ChainBuilder, node_dir: &Path, crashed: &Crashed, redo: &Redo, what: &str) -> Option<(Option<usize>, u128)> {
     let emit = redo.emit;
     let t_start = Instant::now();
     let node = start_node(out, h, node_dir, what)?;
@@ -1626,6 +1723,20 @@ fn restart_and_redeliver(out: &mut Out, h: &Hist, node_dir: &Path, crashed: &Cra
             }
             if emit {
                 out.op(&restart_op, &fmt_line(&[], &v));
+                out.op(&format!("pview {} {}", h.cfg.window.0, h.cfg.window.1), &pview_answer(&node, h));
+            }
+            // what start-up rebuilt, against the replay oracle over the stored main chain
+            check_recon(out, h, builder, &node, &v, what, "after the restart");
+            if let Some(t) = v.tip {
+                count_uncle_distances(out, h, t, h.cfg.window.1);
+            }
+            // blocks still to be verified after this restart that commit a transaction proposed ONLY by an uncle
+            let has_ext: HashSet<usize> = v.ext.iter().map(|(i, _)| *i).collect();
+            for b in h.blks.iter().skip(1) {
+                let g = &h.blks[h.blks[b.parent].parent];
+                if !has_ext.contains(&b.id) && b.block.transactions().len() > 1 && g.own_props.is_empty() && !g.uncle_props.is_empty() && redo.post.contains(&b.id) {
+                    out.count("commit-of-uncle-only-proposal-verified-after-restart");
+                }
             }
             for _ in 0..scanned.len() {
                 out.count("restart-requeued");
@@ -1658,7 +1769,9 @@ fn restart_and_redeliver(out: &mut Out, h: &Hist, node_dir: &Path, crashed: &Cra
                         }
                         if emit {
                             out.op(&format!("deliver {} {}", id, show_ids(&d.hint)), &fmt_line(&d.cbs, &d.view));
+                            out.op(&format!("pview {} {}", h.cfg.window.0, h.cfg.window.1), &pview_answer(&node, h));
                         }
+                        check_recon(out, h, builder, &node, &d.view, what, &format!("after the delivery of {id} following the restart"));
                         last = (d.view.tip, d.view.td);
                         if is_post {
                             done_post += 1;
@@ -1683,6 +1796,7 @@ fn restart_and_redeliver(out: &mut Out, h: &Hist, node_dir: &Path, crashed: &Cra
                 if let Some(want) = redo.expect {
                     check_converged(out, "diverged", "after re-delivering the whole history", last, want, what);
                 }
+                check_final(out, &node, redo.final_ref, what);
                 result = Some(last);
             }
         }
@@ -1722,6 +1836,8 @@ struct RefRun {
     reorg: Vec<bool>,
     any_reorg: bool,
     any_reject: bool,
+    /// `final_line` of the crash-free run
+    final_line: Option<String>,
 }
 
 fn tip_of(line: &str) -> Option<usize> {
@@ -1751,7 +1867,7 @@ fn analyse_ref(h: &Hist, log: &ChildLog) -> Option<RefRun> {
         }
     }
     let last = log.dones.last()?;
-    Some(RefRun { k0, total, dones: log.dones.clone(), before, final_tip: tip_of(&last.line), final_td: td_of(&last.line), any_reorg: reorg.iter().any(|x| *x), reorg, any_reject })
+    Some(RefRun { k0, total, dones: log.dones.clone(), before, final_tip: tip_of(&last.line), final_td: td_of(&last.line), any_reorg: reorg.iter().any(|x| *x), reorg, any_reject, final_line: log.final_line.clone() })
 }
 
 fn describe_exit(e: &ChildExit, job: &ChildJob) -> String {
@@ -1761,8 +1877,12 @@ fn describe_exit(e: &ChildExit, job: &ChildJob) -> String {
 }
 
 fn emit_blks(out: &mut Out, h: &Hist) {
+    out.op(&format!("win {} {}", h.cfg.window.0, h.cfg.window.1), "ok");
     for b in &h.blks {
         out.op(&blk_line(b), "ok");
+        if let Some(p) = prop_line(b) {
+            out.op(&p, "ok");
+        }
     }
 }
 
@@ -1778,61 +1898,105 @@ fn classify(prev: &StateView, next: &StateView) -> &'static str {
     }
 }
 
-/// Step C: crash n1 on a fresh directory, a second run on the same directory (re-delivering everything)
-/// crashed at ITS n2-th commit, then recovery and full re-delivery; only the final td is compared.
-fn multi_case(out: &mut Out, h: &Hist, builder: &mut ChainBuilder, env: &ChildEnv, base: &Path, tag: &str, order: &[usize], n1: u64, n2: u64, expect: Option<(u128, Option<usize>)>, stderr: &Path, hname: &str, begin: bool) {
+/// Step C: repeated crashes with deliveries in between. Crash n1 on a fresh directory (inside a delivery); a
+/// second process on the same directory re-delivers the whole history and is killed at ITS n2-th commit —
+/// during the start-up re-verification (op `crash2`: some prefix of it), or after the start-up phase inside a
+/// delivery (ops `restart`, `deliver`…, `crashsome <id> <observed>`: the persisted state must be the one
+/// between two commits of that delivery — the verification commit and the quiescence fence's re-insertion of
+/// the tip are performed by two threads, so WHICH prefix is not determined), or it completes and is stopped.
+/// Every op is compared with the model on the FULL state; then the usual recovery (`restart-state`,
+/// `final-state-vs-crash-free`, convergence). Replay: the label carries `order=` (the ops are regenerated).
+#[allow(clippy::too_many_arguments)]
+fn multi_case(out: &mut Out, h: &Hist, builder: &mut ChainBuilder, env: &ChildEnv, base: &Path, tag: &str, order: &[usize], n1: u64, n2: u64, expect: Option<(u128, Option<usize>)>, final_ref: Option<&str>, stderr: &Path, hname: &str, begin: bool) {
     let dir = base.join(tag);
     let _ = std::fs::remove_dir_all(&dir);
     let j1 = ChildJob { node_dir: dir.clone(), log: base.join(format!("{tag}-1.log")), stderr: stderr.to_path_buf(), ids: order.to_vec(), crash: Some(format!("{n1}:before")), fenced: false, fork: None };
     let j2 = ChildJob { node_dir: dir.clone(), log: base.join(format!("{tag}-2.log")), stderr: stderr.to_path_buf(), ids: order.to_vec(), crash: Some(format!("{n2}:before")), fenced: true, fork: None };
     let _ = std::fs::remove_file(&j1.log);
     let _ = std::fs::remove_file(&j2.log);
+    let cleanup = || {
+        let _ = std::fs::remove_dir_all(&dir);
+        let _ = std::fs::remove_file(&j1.log);
+        let _ = std::fs::remove_file(&j2.log);
+    };
     if begin {
-        out.begin_case(&format!("multi el={} n1={} n2={} {}", h.el, n1, n2, hname));
+        out.begin_case(&format!("multi el={} n1={} n2={} order={} {}", h.el, n1, n2, show_ids(order), hname));
         emit_blks(out, h);
     }
     let what = format!("{hname} repeated crashes n1={n1} n2={n2}");
+    let restart_op = format!("restart {} {}", h.consensus.max_epoch_length(), show_ids(&h.scan_order()));
+    // ---- first process
     let e1 = run_child(env, &j1);
     out.count("child-run");
-    let mut ok = e1 == ChildExit::Signal(SIGABRT) || e1 == ChildExit::Code(0);
-    if !ok {
-        out.oracle_fail("child-failed", &format!("{what}: first run: {}", describe_exit(&e1, &j1)));
+    let l1 = parse_log(&j1.log);
+    if !(e1 == ChildExit::Signal(SIGABRT) || e1 == ChildExit::Code(0)) {
+        let class = if l1.hang.is_some() || e1 == ChildExit::Timeout { "hang" } else { "child-failed" };
+        out.oracle_fail(class, &format!("{what}: first run: {} log-hang={:?}", describe_exit(&e1, &j1), l1.hang));
+        cleanup();
+        return;
     }
-    if ok {
-        if inspect_crashed(out, h, builder, &dir, &format!("{what} (after crash 1)")).is_none() {
-            ok = false;
+    for d in &l1.dones {
+        out.op(&format!("deliver {} {}", d.id, d.hint), &d.line);
+    }
+    let Some(crashed1) = inspect_crashed(out, h, builder, &dir, &format!("{what} (after crash 1)")) else {
+        cleanup();
+        return;
+    };
+    match (&e1, l1.inflight) {
+        (ChildExit::Signal(_), Some((id, c0))) => out.op(&format!("crashdeliver {id} {}", n1 - c0), &fmt_line(&[], &crashed1.view)),
+        (ChildExit::Signal(_), None) => out.count("crash-outside-delivery"),
+        _ => out.count("first-run-completed"),
+    }
+    // ---- second process (a restart that re-delivers everything)
+    let e2 = run_child(env, &j2);
+    out.count("child-run");
+    let l2 = parse_log(&j2.log);
+    match e2 {
+        ChildExit::Signal(SIGABRT) => out.count("second-crash"),
+        ChildExit::Code(0) => out.count("second-run-completed"),
+        _ => {
+            let class = if l2.hang.is_some() || e2 == ChildExit::Timeout { "hang" } else { "child-failed" };
+            out.oracle_fail(class, &format!("{what}: second run: {} log-hang={:?}", describe_exit(&e2, &j2), l2.hang));
+            cleanup();
+            return;
         }
     }
-    if ok {
-        let e2 = run_child(env, &j2);
-        out.count("child-run");
-        let l2 = parse_log(&j2.log);
-        match e2 {
-            ChildExit::Signal(SIGABRT) => out.count("second-crash"),
-            ChildExit::Code(0) => out.count("second-run-completed"),
-            _ => {
-                let class = if l2.hang.is_some() || e2 == ChildExit::Timeout { "hang" } else { "child-failed" };
-                out.oracle_fail(class, &format!("{what}: second run: {} log-hang={:?}", describe_exit(&e2, &j2), l2.hang));
-                ok = false;
+    let Some(crashed) = inspect_crashed(out, h, builder, &dir, &format!("{what} (after crash 2)")) else {
+        cleanup();
+        return;
+    };
+    out.count("crash-point");
+    let obs = fmt_line(&[], &crashed.view);
+    match (&l2.restarted, l2.start) {
+        (Some(line), Some(_)) => {
+            out.op(&restart_op, line);
+            for d in &l2.dones {
+                out.op(&format!("deliver {} {}", d.id, d.hint), &d.line);
+            }
+            if e2 == ChildExit::Signal(SIGABRT) {
+                match l2.inflight {
+                    Some((id, _)) => {
+                        out.op(&format!("crashsome {} {}", id, obs.replace(' ', "|")), &obs);
+                        out.count("second-crash-inside-delivery-after-startup-full-state-compared");
+                    }
+                    None => out.count("crash-outside-delivery"),
+                }
             }
         }
-    }
-    let mut answer = "td=?".to_string();
-    if ok {
-        if let Some(crashed) = inspect_crashed(out, h, builder, &dir, &format!("{what} (after crash 2)")) {
-            out.count("crash-point");
-            if !crashed.unext.is_empty() {
-                out.nontrivial(h.fingerprint(order, &[n1, n2, 7]));
-            }
-            if let Some((_, td)) = restart_and_redeliver(out, h, &dir, &crashed, &Redo { emit: false, tip_op: false, post: order, remaining: None, expect }, &what) {
-                answer = format!("td={td}");
-            }
+        _ => {
+            // killed before the start-up phase was over: some prefix of the re-verification
+            out.op(&format!("crash2 {} {} {}", h.consensus.max_epoch_length(), show_ids(&h.scan_order()), obs.replace(' ', "|")), &obs);
+            out.count("second-level-crash-during-startup-reverification");
         }
     }
-    out.op(&format!("burst {}", show_ids(order)), &answer);
-    let _ = std::fs::remove_dir_all(&dir);
-    let _ = std::fs::remove_file(&j1.log);
-    let _ = std::fs::remove_file(&j2.log);
+    if !crashed.unext.is_empty() {
+        out.nontrivial(h.fingerprint(order, &[n1, n2, 7]));
+    }
+    let phase1: Vec<usize> = order.iter().copied().filter(|i| !crashed.view.stored.contains(i)).collect();
+    let mut post = phase1.clone();
+    post.extend(order.iter().copied());
+    restart_and_redeliver(out, h, builder, &dir, &crashed, &Redo { emit: true, tip_op: true, post: &post, remaining: expect.map(|e| (phase1.len(), e)), expect, final_ref }, &what);
+    cleanup();
 }
 
 
@@ -1843,7 +2007,7 @@ fn multi_case(out: &mut Out, h: &Hist, builder: &mut ChainBuilder, env: &ChildEn
 /// crash state advanced by SOME prefix of the re-verification (op `crash2`: the model enumerates the
 /// prefixes; the two service threads interleave freely); then the usual recovery with every op compared.
 #[allow(clippy::too_many_arguments)]
-fn second_level_case(out: &mut Out, h: &Hist, builder: &mut ChainBuilder, env: &ChildEnv, base: &Path, tag: &str, order: &[usize], n1: u64, n2: u64, expect: Option<(u128, Option<usize>)>, stderr: &Path, hname: &str) {
+fn second_level_case(out: &mut Out, h: &Hist, builder: &mut ChainBuilder, env: &ChildEnv, base: &Path, tag: &str, order: &[usize], n1: u64, n2: u64, expect: Option<(u128, Option<usize>)>, final_ref: Option<&str>, stderr: &Path, hname: &str) {
     let dir = base.join(tag);
     let _ = std::fs::remove_dir_all(&dir);
     let j1 = ChildJob { node_dir: dir.clone(), log: base.join(format!("{tag}-1.log")), stderr: stderr.to_path_buf(), ids: order.to_vec(), crash: Some(format!("{n1}:before")), fenced: false, fork: None };
@@ -1905,7 +2069,7 @@ fn second_level_case(out: &mut Out, h: &Hist, builder: &mut ChainBuilder, env: &
     let phase1: Vec<usize> = order.iter().copied().filter(|i| !crashed2.view.stored.contains(i)).collect();
     let mut post = phase1.clone();
     post.extend(order.iter().copied());
-    restart_and_redeliver(out, h, &dir, &crashed2, &Redo { emit: true, tip_op: true, post: &post, remaining: expect.map(|e| (phase1.len(), e)), expect }, &what);
+    restart_and_redeliver(out, h, builder, &dir, &crashed2, &Redo { emit: true, tip_op: true, post: &post, remaining: expect.map(|e| (phase1.len(), e)), expect, final_ref }, &what);
     cleanup();
 }
 
@@ -2109,7 +2273,7 @@ fn one_history(out: &mut Out, opts: &Opts, rng: &mut Rng, base: &Path, hno: u64,
         let phase1: Vec<usize> = order.iter().copied().filter(|i| !crashed.view.stored.contains(i)).collect();
         let mut post = phase1.clone();
         post.extend(order.iter().copied());
-        restart_and_redeliver(out, &h, &job.node_dir, &crashed, &Redo { emit: true, tip_op: true, post: &post, remaining: expect.map(|e| (phase1.len(), e)), expect }, &what);
+        restart_and_redeliver(out, &h, &mut builder, &job.node_dir, &crashed, &Redo { emit: true, tip_op: true, post: &post, remaining: expect.map(|e| (phase1.len(), e)), expect, final_ref: rr.final_line.as_deref() }, &what);
         cleanup();
     });
 
@@ -2120,14 +2284,14 @@ fn one_history(out: &mut Out, opts: &Opts, rng: &mut Rng, base: &Path, hno: u64,
     for j in 0..want.min(good_n1.len()) {
         let (n1, cnt) = good_n1[j % good_n1.len()];
         let n2 = rng.range(2, 2 * cnt as u64);
-        second_level_case(out, &h, &mut builder, &env, base, &format!("h{hno}-s{j}"), &order, n1, n2, expect, &opts.out.join("child-stderr.txt"), &format!("hist={hno}"));
+        second_level_case(out, &h, &mut builder, &env, base, &format!("h{hno}-s{j}"), &order, n1, n2, expect, rr.final_line.as_deref(), &opts.out.join("child-stderr.txt"), &format!("hist={hno}"));
     }
     // ---- Step C: repeated crashes (thorough)
-    if thorough && hno % 2 == 0 && span >= 2 {
-        for pair in 0..3u64 {
+    if (thorough || hno == 0) && hno % 2 == 0 && span >= 2 {
+        for pair in 0..(if thorough { 3u64 } else { 1 }) {
             let n1 = rng.range(rr.k0 + 1, rr.total);
             let n2 = rng.range(1, span + 4);
-            multi_case(out, &h, &mut builder, &env, base, &format!("h{hno}-m{pair}"), &order, n1, n2, expect, &opts.out.join("child-stderr.txt"), &format!("hist={hno}"), true);
+            multi_case(out, &h, &mut builder, &env, base, &format!("h{hno}-m{pair}"), &order, n1, n2, expect, rr.final_line.as_deref(), &opts.out.join("child-stderr.txt"), &format!("hist={hno}"), true);
         }
     }
     let _ = std::fs::remove_file(&env.blocks_file);
@@ -2272,6 +2436,10 @@ struct Recon {
     /// `get_block_status` per block id
     status: Vec<u32>,
     orph: usize,
+    /// `is_verifying_unverified_blocks_on_startup`
+    verifying: bool,
+    /// size of `is_pending_verify` (0 while the tip is genesis: no fence exists there)
+    pending: usize,
 }
 
 fn epoch_tuple(e: &ckb_types::core::EpochExt, by_hash: &HashMap<Byte32, usize>) -> (u64, u64, u64, String) {
@@ -2279,65 +2447,104 @@ fn epoch_tuple(e: &ckb_types::core::EpochExt, by_hash: &HashMap<Byte32, usize>) 
     (e.number(), e.start_number(), e.length(), by_hash.get(&l).map(|i| i.to_string()).unwrap_or_else(|| format!("{l}")))
 }
 
-fn proposer_map(h: &Hist) -> HashMap<packed::ProposalShortId, usize> {
-    h.blks.iter().filter_map(|b| b.tx.as_ref().map(|t| (t.proposal_short_id(), b.id))).collect()
+/// proposal short id -> its small numeric name (own and uncles' proposals of every block of the history)
+fn proposer_map(h: &Hist) -> HashMap<packed::ProposalShortId, u64> {
+    h.blks.iter().flat_map(|b| b.own_props.iter().chain(b.uncle_props.iter())).map(|(n, id)| (id.clone(), *n)).collect()
+}
+
+fn name_ids(pm: &HashMap<packed::ProposalShortId, u64>, ids: &HashSet<packed::ProposalShortId>) -> Vec<String> {
+    let mut known: Vec<u64> = ids.iter().filter_map(|i| pm.get(i).copied()).collect();
+    known.sort();
+    let mut v: Vec<String> = known.iter().map(|n| n.to_string()).collect();
+    let mut unknown: Vec<String> = ids.iter().filter(|i| !pm.contains_key(*i)).map(|i| format!("{i:?}")).collect();
+    unknown.sort();
+    v.extend(unknown);
+    v
+}
+
+fn show_names(v: &[String]) -> String {
+    if v.is_empty() { "-".into() } else { v.join(",") }
+}
+
+/// `pview <close> <far>` answer: `Snapshot::proposals()` of the node
+fn pview_answer(node: &Node, h: &Hist) -> String {
+    let snap = node.shared.snapshot();
+    let pm = proposer_map(h);
+    format!("gap={} set={}", show_names(&name_ids(&pm, snap.proposals().gap())), show_names(&name_ids(&pm, snap.proposals().set())))
 }
 
 fn recon_of_node(node: &Node, h: &Hist) -> Recon {
     let snap = node.shared.snapshot();
     let pm = proposer_map(h);
-    let name = |ids: &HashSet<packed::ProposalShortId>| {
-        let mut v: Vec<String> = ids.iter().map(|i| pm.get(i).map(|b| b.to_string()).unwrap_or_else(|| format!("{i:?}"))).collect();
-        v.sort();
-        v
-    };
     Recon {
         tip: h.by_hash.get(&snap.tip_hash()).copied(),
         td: u256_u128(snap.total_difficulty()),
-        gap: name(snap.proposals().gap()),
-        set: name(snap.proposals().set()),
+        gap: name_ids(&pm, snap.proposals().gap()),
+        set: name_ids(&pm, snap.proposals().set()),
         snap_epoch: epoch_tuple(snap.epoch_ext(), &h.by_hash),
         db_epoch: node.store().get_current_epoch_ext().map(|e| epoch_tuple(&e, &h.by_hash)),
         status: h.blks.iter().map(|b| node.shared.get_block_status(&b.hash).bits()).collect(),
         orph: node.controller().orphan_blocks_len(),
+        verifying: node.controller().is_verifying_unverified_blocks_on_startup(),
+        pending: if snap.tip_number() == 0 { 0 } else { node.controller().verif_pending_len().unwrap_or(0) },
     }
 }
 
-/// The replay oracle for `Recon`, from the history alone (no node): the C20 window rule over the tip's path
-/// (`ProposalTable::finalize`), the epoch of the tip recomputed by a replay store, the work along the path,
-/// the status from the persisted ext (valid-only histories, empty header map).
-fn recon_oracle(h: &Hist, builder: &mut ChainBuilder, tip: usize, window: (u64, u64), view: &StateView) -> Recon {
+/// The proposal window over the tip's path, from the history alone (C20's rule, `ProposalTable::finalize`):
+/// the next block has number `tip number + extra + 1` (`extra` = blocks without proposals appended above the
+/// tip); `set` = union_proposal_ids (own AND uncles') of the path blocks at distance closest..=farthest, `gap`
+/// = those closer. Names, sorted numerically, without duplicates.
+fn window_names(h: &Hist, tip: usize, extra: u64, window: (u64, u64)) -> (Vec<String>, Vec<String>) {
     let path = h.path(tip);
-    let n = h.blks[tip].num;
+    let n = h.blks[tip].num + extra;
     let cand = n + 1;
     let ids_in = |lo: u64, hi: u64| -> Vec<String> {
-        // blocks of the path with lo <= number <= hi (numbers >= 1) that propose something
-        let mut v: Vec<String> = path.iter().filter(|i| **i != 0 && h.blks[**i].num >= lo && h.blks[**i].num <= hi && h.blks[**i].tx.is_some()).map(|i| i.to_string()).collect();
+        let mut v: Vec<u64> = path.iter().filter(|i| **i != 0 && h.blks[**i].num >= lo && h.blks[**i].num <= hi).flat_map(|i| h.blks[*i].union_names()).collect();
         v.sort();
-        v
+        v.dedup();
+        v.iter().map(|x| x.to_string()).collect()
     };
-    let (set, gap) = if cand <= window.0 {
+    if cand <= window.0 {
         (vec![], ids_in(0, n))
     } else {
         let start = cand.saturating_sub(window.1);
         let end = cand - window.0;
         (ids_in(start, end), ids_in(end + 1, n))
-    };
+    }
+}
+
+/// The replay oracle for `Recon`, from the history alone (no node): the window rule over the tip's path, the
+/// epoch of the tip recomputed by a replay store, the work along the path, the status from the status map's
+/// BLOCK_INVALID entries (`view.inv`) and the persisted ext (empty header map), nothing left verifying.
+fn recon_oracle(h: &Hist, builder: &mut ChainBuilder, tip: usize, window: (u64, u64), view: &StateView) -> Recon {
+    let (set, gap) = window_names(h, tip, 0, window);
     let replay = builder.replay_store(&h.blks[tip].hash);
     let e = replay.get_current_epoch_ext().map(|e| epoch_tuple(&e, &h.by_hash));
     let ext: HashSet<usize> = view.ext.iter().map(|(i, _)| *i).collect();
     let status = h.blks.iter().map(|b| {
-        if view.ver.contains(&b.id) { BlockStatus::BLOCK_VALID.bits() } else if ext.contains(&b.id) { BlockStatus::BLOCK_STORED.bits() } else { BlockStatus::UNKNOWN.bits() }
+        if view.inv.contains(&b.id) { BlockStatus::BLOCK_INVALID.bits() } else if view.ver.contains(&b.id) { BlockStatus::BLOCK_VALID.bits() } else if ext.contains(&b.id) { BlockStatus::BLOCK_STORED.bits() } else { BlockStatus::UNKNOWN.bits() }
     }).collect();
-    Recon { tip: Some(tip), td: h.total_work(tip), gap, set, snap_epoch: e.clone().unwrap_or((0, 0, 0, "?".into())), db_epoch: e, status, orph: view.orph }
+    Recon { tip: Some(tip), td: h.total_work(tip), gap, set, snap_epoch: e.clone().unwrap_or((0, 0, 0, "?".into())), db_epoch: e, status, orph: view.orph, verifying: false, pending: 0 }
+}
+
+/// counts, per distance below the restart tip, the main-chain blocks whose uncles carry an id the block does
+/// not propose itself (generator coverage of the start-up reconstruction's uncle walk)
+fn count_uncle_distances(out: &mut Out, h: &Hist, tip: usize, wfar: u64) {
+    let tn = h.blks[tip].num;
+    for i in h.path(tip) {
+        let b = &h.blks[i];
+        if !b.uncle_only_names().is_empty() && tn - b.num <= wfar + 1 {
+            out.count(&format!("uncle-only-proposal-{}-below-restart-tip", tn - b.num));
+        }
+    }
 }
 
 fn recon_diff(a: &Recon, b: &Recon) -> String {
     let mut v = vec![];
     if a.tip != b.tip { v.push(format!("tip {:?} vs {:?}", a.tip, b.tip)); }
     if a.td != b.td { v.push(format!("total difficulty {} vs {}", a.td, b.td)); }
-    if a.gap != b.gap { v.push(format!("proposals.gap (proposing blocks) {:?} vs {:?}", a.gap, b.gap)); }
-    if a.set != b.set { v.push(format!("proposals.set (proposing blocks) {:?} vs {:?}", a.set, b.set)); }
+    if a.gap != b.gap { v.push(format!("proposals.gap (names: block id = its transaction, >=100000 = proposed only by an uncle) {:?} vs {:?}", a.gap, b.gap)); }
+    if a.set != b.set { v.push(format!("proposals.set (names: block id = its transaction, >=100000 = proposed only by an uncle) {:?} vs {:?}", a.set, b.set)); }
     if a.snap_epoch != b.snap_epoch { v.push(format!("snapshot epoch {:?} vs {:?}", a.snap_epoch, b.snap_epoch)); }
     if a.db_epoch != b.db_epoch { v.push(format!("stored current epoch {:?} vs {:?}", a.db_epoch, b.db_epoch)); }
     if a.status != b.status {
@@ -2345,7 +2552,63 @@ fn recon_diff(a: &Recon, b: &Recon) -> String {
         v.push(format!("get_block_status {}", d.join(",")));
     }
     if a.orph != b.orph { v.push(format!("orphan pool size {} vs {}", a.orph, b.orph)); }
+    if a.verifying != b.verifying { v.push(format!("is_verifying_unverified_blocks_on_startup {} vs {}", a.verifying, b.verifying)); }
+    if a.pending != b.pending { v.push(format!("is_pending_verify size {} vs {}", a.pending, b.pending)); }
     v.join("; ")
+}
+
+/// `restart-state`: everything start-up rebuilt (and the running node maintains from there) against the
+/// replay oracle over the stored main chain. Skipped while the tip is not a block of the history or its
+/// path holds an invalid block (flagged elsewhere).
+fn check_recon(out: &mut Out, h: &Hist, builder: &mut ChainBuilder, node: &Node, view: &StateView, what: &str, when: &str) -> Option<Recon> {
+    let got = recon_of_node(node, h);
+    let t = got.tip?;
+    if h.path(t).iter().any(|i| h.blks[*i].kind != Kind::Valid) {
+        return Some(got);
+    }
+    let want = recon_oracle(h, builder, t, h.cfg.window, view);
+    if got != want {
+        out.oracle_fail("restart-state", &format!("{what}: {when}: the node's state differs from a replay of the stored main chain genesis..{t} (node vs replay): {}", recon_diff(&got, &want)));
+    }
+    out.count("recon-compared");
+    Some(got)
+}
+
+/// The tip-determined state of a node without block ids (a child process does not know them): tip hash, total
+/// difficulty, `Snapshot::proposals()` (raw short ids), snapshot epoch and stored current epoch.
+fn final_line(node: &Node) -> String {
+    let snap = node.shared.snapshot();
+    let hexset = |s: &HashSet<packed::ProposalShortId>| {
+        let mut v: Vec<String> = s.iter().map(|i| hex(i.as_slice())).collect();
+        v.sort();
+        if v.is_empty() { "-".to_string() } else { v.join(",") }
+    };
+    let ep = |e: &ckb_types::core::EpochExt| format!("{}/{}/{}/{}", e.number(), e.start_number(), e.length(), hex(e.last_block_hash_in_previous_epoch().as_slice()));
+    format!(
+        "tip={} td={} gap={} set={} snap_epoch={} db_epoch={}",
+        hex(snap.tip_hash().as_slice()),
+        u256_u128(snap.total_difficulty()),
+        hexset(snap.proposals().gap()),
+        hexset(snap.proposals().set()),
+        ep(snap.epoch_ext()),
+        node.store().get_current_epoch_ext().map(|e| ep(&e)).unwrap_or("?".into())
+    )
+}
+
+/// `final-state-vs-crash-free`: at the end of a recovery that received every block of the history, the
+/// tip-determined state must equal the crash-free run's (compared when the tips agree; two heaviest chains of
+/// equal work may legitimately end on different tips)
+fn check_final(out: &mut Out, node: &Node, final_ref: Option<&str>, what: &str) {
+    let Some(want) = final_ref else { return };
+    let got = final_line(node);
+    if line_field(&got, "tip=") != line_field(want, "tip=") {
+        out.count("final-comparison-skipped-other-tip");
+    } else {
+        out.count("final-state-compared-with-crash-free-run");
+        if got != want {
+            out.oracle_fail("final-state-vs-crash-free", &format!("{what}: after the recovery and the delivery of every block the node is on the crash-free run's tip but its state differs (recovered vs crash-free): {got} vs {want}"));
+        }
+    }
 }
 
 struct ForkCase<'a> {
@@ -2364,7 +2627,7 @@ struct ForkCase<'a> {
 /// One crashed / stopped directory of family `fork`: ops `burstcrash`, `requeued`, `restart`, `deliver`…
 /// and the oracles `burst-insert-order`, `not-requeued`, `restart-state` (vs the replay oracle),
 /// `restart-vs-reference` (vs a never-crashed node at the same logical point), `diverged-after-remaining`.
-fn fork_recover(out: &mut Out, fc: &ForkCase, builder: &mut ChainBuilder, node_dir: &Path, ref_dir: &Path, what: &str) {
+fn fork_recover(out: &mut Out, fc: &ForkCase, builder: &mut ChainBuilder, tails: &mut HashMap<Byte32, Vec<BlockView>>, node_dir: &Path, ref_dir: &Path, what: &str) {
     let h = fc.h;
     for d in fc.serial_dones {
         out.op(&format!("deliver {} {}", d.id, d.hint), &d.line);
@@ -2440,22 +2703,10 @@ fn fork_recover(out: &mut Out, fc: &ForkCase, builder: &mut ChainBuilder, node_d
     let v0 = r.view();
     out.op(&format!("restart {} {}", mel, show_ids(&order)), &fmt_line(&[], &v0));
 
-    // ---- what start-up rebuilt: against the replay oracle ...
-    let window = (WINDOW.0, fc.wfar);
-    let check_recon = |out: &mut Out, builder: &mut ChainBuilder, node: &Node, view: &StateView, when: &str| -> Option<Recon> {
-        let got = recon_of_node(node, h);
-        let t = got.tip?;
-        if h.path(t).iter().any(|i| h.blks[*i].kind != Kind::Valid) {
-            return Some(got);
-        }
-        let want = recon_oracle(h, builder, t, window, view);
-        if got != want {
-            out.oracle_fail("restart-state", &format!("{what}: {when}: the node's state differs from a replay of the stored main chain genesis..{t} (node vs replay): {}", recon_diff(&got, &want)));
-        }
-        Some(got)
-    };
-    let got0 = check_recon(out, builder, &node, &v0, "after the restart");
-    out.count("recon-compared");
+    // ---- what start-up rebuilt: against the model (`pview`) and the replay oracle ...
+    out.op(&format!("pview {} {}", WINDOW.0, fc.wfar), &pview_answer(&node, h));
+    let got0 = check_recon(out, h, builder, &node, &v0, what, "after the restart");
+    count_uncle_distances(out, h, tip, fc.wfar);
 
     // ---- ... and against a never-crashed node that received exactly the blocks this one had stored
     let _ = std::fs::remove_dir_all(ref_dir);
@@ -2501,6 +2752,7 @@ fn fork_recover(out: &mut Out, fc: &ForkCase, builder: &mut ChainBuilder, node_d
     // ---- only the blocks the node never stored
     let never: Vec<usize> = burst[i..].iter().copied().chain(fc.plan.missing.iter().copied()).collect();
     let post: Vec<usize> = fc.post.clone().unwrap_or_else(|| never.clone());
+    let wfar = fc.wfar;
     let mut delivered: HashSet<usize> = stored.iter().copied().filter(|x| *x != 0).collect();
     let mut last = (v0.tip, v0.td);
     let mut dead = false;
@@ -2509,8 +2761,9 @@ fn fork_recover(out: &mut Out, fc: &ForkCase, builder: &mut ChainBuilder, node_d
         match r.deliver(id) {
             Ok(d) => {
                 out.op(&format!("deliver {} {}", id, show_ids(&d.hint)), &fmt_line(&d.cbs, &d.view));
+                out.op(&format!("pview {} {}", WINDOW.0, wfar), &pview_answer(r.node, h));
                 *last = (d.view.tip, d.view.td);
-                let got = check_recon(out, builder, r.node, &d.view, &format!("after the delivery of {id} following the restart"));
+                let got = check_recon(out, h, builder, r.node, &d.view, what, &format!("after the delivery of {id} following the restart"));
                 if *ref_ok {
                     if let Err(e) = rr.deliver(id) {
                         out.oracle_fail("hang", &format!("{what}: reference node: delivery of {id}: {e}"));
@@ -2583,6 +2836,52 @@ fn fork_recover(out: &mut Out, fc: &ForkCase, builder: &mut ChainBuilder, node_d
     }
     drop(r);
     drop(rr);
+    // ---- the proposal TABLE (not only the view derived from it at start-up): w_far + 1 blocks without
+    // proposals on top of the final tip, on both nodes; every row start-up rebuilt slides through gap and set
+    if !dead && ref_ok && all_in && node.tip_hash() == refnode.tip_hash() {
+        if let Some(t) = h.by_hash.get(&node.tip_hash()).copied() {
+            let tail = tails.entry(h.blks[t].hash.clone()).or_insert_with(|| {
+                let mut v: Vec<BlockView> = vec![];
+                let mut parent = h.blks[t].hash.clone();
+                for k in 1..=wfar + 1 {
+                    let b = builder.build(&parent, &BlockSpec { salt: 8_000_000 + k, ..Default::default() });
+                    parent = b.hash();
+                    v.push(b);
+                }
+                v
+            });
+            let canon_off = |mut x: Recon| {
+                for st in x.status.iter_mut() {
+                    if *st == BlockStatus::BLOCK_VALID.bits() {
+                        *st = BlockStatus::BLOCK_STORED.bits();
+                    }
+                }
+                x
+            };
+            for (k, b) in tail.iter().enumerate() {
+                let (ra, rb) = (node.process(b), refnode.process(b));
+                if ra.is_ok() != rb.is_ok() {
+                    out.oracle_fail("restart-vs-reference", &format!("{what}: block {} without proposals on top of the final tip {t}: restarted node {:?}, never-crashed node {:?}", k + 1, ra, rb));
+                    break;
+                }
+                if ra.is_err() {
+                    out.count("tail-block-rejected-by-both");
+                    break;
+                }
+                let (ga, gb) = (canon_off(recon_of_node(&node, h)), canon_off(recon_of_node(&refnode, h)));
+                if ga != gb {
+                    out.oracle_fail("restart-vs-reference", &format!("{what}: {} blocks without proposals above the final tip {t}: the restarted node differs from the never-crashed node (restarted vs reference): {}", k + 1, recon_diff(&ga, &gb)));
+                    break;
+                }
+                let (set, gap) = window_names(h, t, k as u64 + 1, (WINDOW.0, wfar));
+                if ga.set != set || ga.gap != gap {
+                    out.oracle_fail("restart-state", &format!("{what}: {} blocks without proposals above the final tip {t}: proposals gap={:?} set={:?}, the window over the chain gives gap={gap:?} set={set:?}", k + 1, ga.gap, ga.set));
+                    break;
+                }
+                out.count("tail-probe-compared");
+            }
+        }
+    }
     tick(&T_REDELIVER_US, t_red);
     if dead {
         std::mem::forget(node);
@@ -2676,6 +2975,7 @@ fn fork_history(out: &mut Out, opts: &Opts, rng: &mut Rng, base: &Path, hno: u64
         })
         .collect();
     let ref_dir = base.join(format!("f{hno}-inproc-ref"));
+    let mut tails: HashMap<Byte32, Vec<BlockView>> = HashMap::new();
     run_jobs(&env, &jobs, 4, |ji, exit| {
         let (o, after, stop) = specs[ji];
         let job = &jobs[ji];
@@ -2706,7 +3006,7 @@ fn fork_history(out: &mut Out, opts: &Opts, rng: &mut Rng, base: &Path, hno: u64
             out.count("fork-plain-stop");
         }
         let fc = ForkCase { h: &h, wfar, plan: &plan, serial_dones: &clog.dones[..clog.serial_dones.min(clog.dones.len())], expect, post: None };
-        fork_recover(out, &fc, &mut builder, &job.node_dir, &ref_dir, &what);
+        fork_recover(out, &fc, &mut builder, &mut tails, &job.node_dir, &ref_dir, &what);
         cleanup();
     });
     let _ = std::fs::remove_file(&env.blocks_file);
@@ -2795,7 +3095,7 @@ fn edge_case(out: &mut Out, opts: &Opts, base: &Path) {
     out.extra.insert("edge_prepare_s".into(), serde_json::json!(t0.elapsed().as_secs_f64()));
     // ids: 0 genesis, 1..=6 M1..M6, 7 = ML (M7..ML as one model block), 8 F5, 9 F6, 10 F7, 11 A1, 12 A2, 13 A3
     let w = |b: &BlockView| u256_u128(&b.header().difficulty());
-    let mk = |id: usize, parent: usize, b: &BlockView, work: u128| Blk { id, parent, hash: b.hash(), num: b.number(), epoch: b.epoch().number(), work, kind: Kind::Valid, block: Arc::new(b.clone()), tx: None };
+    let mk = |id: usize, parent: usize, b: &BlockView, work: u128| Blk { id, parent, hash: b.hash(), num: b.number(), epoch: b.epoch().number(), work, kind: Kind::Valid, block: Arc::new(b.clone()), tx: None, own_props: vec![], uncle_props: vec![] };
     let mut blks = vec![g.clone()];
     for n in 1..=6usize {
         blks.push(mk(n, n - 1, &main[n], w(&main[n])));
@@ -3011,7 +3311,7 @@ fn replay_fork(out: &mut Out, h: &Hist, builder: &mut ChainBuilder, env: &ChildE
     let (job, clog) = chosen.unwrap();
     let what = format!("replay fork (recorded i={ti} v={tv})");
     let fc = ForkCase { h, wfar, plan: &plan, serial_dones: &clog.dones[..clog.serial_dones.min(clog.dones.len())], expect, post: Some(post) };
-    fork_recover(out, &fc, builder, &job.node_dir, &base.join(format!("r{cno}-inproc-ref")), &what);
+    fork_recover(out, &fc, builder, &mut HashMap::new(), &job.node_dir, &base.join(format!("r{cno}-inproc-ref")), &what);
     let _ = std::fs::remove_dir_all(&job.node_dir);
     let _ = std::fs::remove_file(&job.log);
 }
@@ -3030,6 +3330,7 @@ fn replay_case(out: &mut Out, opts: &Opts, label: &[&str], lines: &[String], bas
     };
     let consensus = make_consensus(&cfg);
     out.begin_case(&label.join(" "));
+    out.op(&format!("win {} {}", cfg.window.0, cfg.window.1), "ok");
     let bdir = base.join(format!("rb{cno}"));
     let mut builder = ChainBuilder::new(consensus.clone(), &bdir);
     builder.max_branch_stores = 12;
@@ -3052,7 +3353,12 @@ fn replay_case(out: &mut Out, opts: &Opts, label: &[&str], lines: &[String], bas
                 build_blk(&mut builder, id, &p, g.as_ref(), Kind::from_flags(t[6] == "1", t[7] == "1"))
             };
             out.op(&blk_line(&b), "ok");
+            if let Some(p) = prop_line(&b) {
+                out.op(&p, "ok");
+            }
             blks.push(b);
+        } else if t[0] == "prop" || t[0] == "pview" || t[0] == "win" {
+            // `win` / `prop` are functions of the label / the blk lines (re-emitted), `pview` follows every `restart` / later `deliver`
         } else {
             ops.push(t.iter().map(|x| x.to_string()).collect());
         }
@@ -3106,14 +3412,21 @@ fn replay_case(out: &mut Out, opts: &Opts, label: &[&str], lines: &[String], bas
             }
         }
     };
-    if let Some(bi) = ops.iter().position(|o| o[0] == "burst") {
+    if label.first() == Some(&"multi") && label.iter().any(|t| t.starts_with("order=")) {
+        // repeated crashes: the run is regenerated from the label (n1, n2, order); the recorded ops are not used
+        let ids: Vec<usize> = label.iter().find_map(|t| t.strip_prefix("order=")).map(parse_ids).unwrap_or_default().into_iter().map(|i| id_of(&i.to_string())).collect();
+        let delivered: HashSet<usize> = ids.iter().copied().collect();
+        let n1 = label_num(label, "n1=").unwrap_or(1).max(1);
+        let n2 = label_num(label, "n2=").unwrap_or(1).max(1);
+        multi_case(out, &h, &mut builder, &env, base, &format!("r{cno}-m"), &ids, n1, n2, Some(h.best(&delivered)), None, &stderr, "replay", false);
+    } else if let Some(bi) = ops.iter().position(|o| o[0] == "burst") {
         assert!(ci.is_none() && ops.len() == 1, "a burst case has exactly one op");
         let ids: Vec<usize> = parse_ids(&ops[bi][1]).into_iter().map(|i| id_of(&i.to_string())).collect();
         let delivered: HashSet<usize> = ids.iter().copied().collect();
         let (btd, bhead) = h.best(&delivered);
         match (label_num(label, "n1="), label_num(label, "n2=")) {
             (Some(n1), Some(n2)) => {
-                multi_case(out, &h, &mut builder, &env, base, &format!("r{cno}-m"), &ids, n1, n2, Some((btd, bhead)), &stderr, "replay", false);
+                multi_case(out, &h, &mut builder, &env, base, &format!("r{cno}-m"), &ids, n1, n2, Some((btd, bhead)), None, &stderr, "replay", false);
             }
             _ => {
                 let job = fresh_job(base, &format!("r{cno}-ref"), &stderr, &ids, None);
@@ -3243,7 +3556,7 @@ fn replay_case(out: &mut Out, opts: &Opts, label: &[&str], lines: &[String], bas
                 d.extend(post[..j].iter().copied().filter(|i| *i != 0));
                 (j, h.best(&d))
             });
-            restart_and_redeliver(out, &h, &job.node_dir, &crashed, &Redo { emit: true, tip_op: false, post: &post, remaining, expect }, &what);
+            restart_and_redeliver(out, &h, &mut builder, &job.node_dir, &crashed, &Redo { emit: true, tip_op: false, post: &post, remaining, expect, final_ref: None }, &what);
         }
         let _ = std::fs::remove_dir_all(&job.node_dir);
         let _ = std::fs::remove_file(&job.log);
